@@ -14,7 +14,8 @@ Sentences of the property:
    `first_run_transparent`, `first_run_stores`, `first_run_does_not_touch_cache_file`;
 2. "every later run yields exactly the stored values in the original order without pulling a single value
    from, or running any element of, the upstream — whether the Cache sits inside a Sequence or is hoisted into
-   a Source by alter_sequence" — `replay_exact_no_pull`, `first_complete_run_then_replay`, `hoisted_same_chain`;
+   a Source by alter_sequence" — `replay_exact_no_pull`, `first_complete_run_then_replay`, `hoisted_same_chain`,
+   and over histories `stored_cache_persists`, `every_later_run_replays`;
 3. "recompute=True or drop_cache() restore the first-run behaviour" — `recompute_restores_first_run`,
    `drop_restores_first_run`;
 4. "If the first run stops at any point before the flow is exhausted … no later run presents the stored prefix
@@ -525,5 +526,93 @@ example :
 
 example : RunSpec.WF ⟨.source, ⟨[1, 2, 3], none⟩, [.map 1 none, .cache 0 false, .cache 1 true], 1, true⟩ :=
   ⟨by simp [Distinct, cacheIds], Or.inl (by decide)⟩
+
+/-! ## Sentence 2 over histories: a stored cache persists, every later run replays it -/
+
+/-- the operations that may replace what cache `c` holds: `drop_cache()` of `c`, and a run through a
+`recompute=True` Cache on `c` -/
+def Op.mayReplace (c : Nat) : Op → Prop
+  | .drop c' _ => c' = c
+  | .run r => ElSpec.cache c true ∈ r.els
+  | .finalize => False
+
+/-- no other operation touches the stored flow: not a replay, not a run that does not contain the cache, not an
+interrupted run, not the finalisation of generators kept alive -/
+theorem step_keeps_stored (w : World) (op : Op) (wf : ∀ r, op = .run r → r.WF) (c : Nat) (xs : List Val)
+    (hno : ¬ op.mayReplace c) (h : (w.fs c).final = some xs) : ((step w op).fs c).final = some xs := by
+  cases op with
+  | drop c' rc =>
+    have hc : c ≠ c' := fun e => hno (by simp [Op.mayReplace, e])
+    simp only [step]
+    rw [(drop_spec w c' rc).2.1 c hc]; exact h
+  | finalize => simpa [step, finalizeAll_final] using h
+  | run r =>
+    have wfr := wf r rfl
+    simp only [step]
+    rw [runOp_final]
+    have sp := drive_spec r.demand w.fs _ (chainOk_build r.mode w.fs r.src r.els wfr.2 wfr.1)
+    unfold runPipe
+    rw [sp.2.2.1 c ?_]
+    · exact h
+    · rw [build_eq' r.mode w.fs r.src r.els wfr.2]
+      intro hmem
+      rcases dumpIds_buildEls w.fs c r.els 0 _ hmem with ⟨h0, _⟩ | ⟨pre, rc, post, e, hx, _⟩
+      · simp [dumpIds] at h0
+      · cases rc with
+        | false => simp [cacheExists, h] at hx
+        | true => exact hno (by simp [Op.mayReplace, e])
+
+/-- **a stored cache persists** through every history without `drop_cache` of it and without a `recompute` run
+on it — whatever else happens: replays, runs of other pipelines, interrupted runs at any crash point, generators
+finalised late -/
+theorem stored_cache_persists : ∀ (ops : List Op) (w : World), (∀ r, .run r ∈ ops → r.WF) → ∀ c xs,
+    (∀ op, op ∈ ops → ¬ op.mayReplace c) → (w.fs c).final = some xs → ((exec w ops).fs c).final = some xs
+  | [], _, _, _, _, _, h => h
+  | op :: ops, w, wf, c, xs, hno, h => by
+    simp only [exec]
+    exact stored_cache_persists ops (step w op) (fun r hr => wf r (by simp [hr])) c xs
+      (fun o ho => hno o (by simp [ho]))
+      (step_keeps_stored w op (fun r hr => wf r (by simp [hr])) c xs (hno op (by simp)) h)
+
+/-- **every later run** (sentences 1 and 2 over histories).  After a run that filled cache `c` and reached its
+normal end, let any history follow that neither drops `c` nor recomputes it.  Then a run through a Cache on `c` —
+any source, any elements before it, any way of calling, any demand — still yields exactly the flow that entered
+the cache in that first run (passed through the elements after the cache), and pulls nothing upstream. -/
+theorem every_later_run_replays (mode : Mode) (w : World) (s : SrcSpec) (pre post : List ElSpec) (c : Nat) (rc : Bool)
+    (k : Nat) (leak : Bool) (hwf : RunSpec.WF ⟨mode, s, pre ++ .cache c rc :: post, k, leak⟩)
+    (hx : cacheExists w.fs c rc = false) (hpost : NoFilled w.fs post)
+    (hend : (runOp w ⟨mode, s, pre ++ .cache c rc :: post, k, leak⟩).2.end_ = .exhausted)
+    (ops : List Op) (wf : ∀ r, .run r ∈ ops → r.WF) (hno : ∀ op, op ∈ ops → ¬ op.mayReplace c)
+    (mode' : Mode) (s' : SrcSpec) (pre' post' : List ElSpec) (k' : Nat)
+    (hm' : ModeOk mode' (pre' ++ .cache c false :: post')) (hd' : Distinct (pre' ++ .cache c false :: post')) :
+    let w' := exec (runOp w ⟨mode, s, pre ++ .cache c rc :: post, k, leak⟩).1 ops
+    (runPipe mode' w'.fs s' (pre' ++ .cache c false :: post') k').outs.map (·.1)
+      = (elsFlow w'.fs post' ⟨(pipeFlow w.fs s pre).vals, none⟩).vals.take k' ∧
+    (∀ ev, ev ∈ (runPipe mode' w'.fs s' (pre' ++ .cache c false :: post') k').evs → EvAfter pre'.length ev) := by
+  intro w'
+  have hend' : (runPipe mode w.fs s (pre ++ .cache c rc :: post) k).end_ = .exhausted := by
+    rw [runOp_snd] at hend; exact hend
+  have h0 : (((runOp w ⟨mode, s, pre ++ .cache c rc :: post, k, leak⟩).1).fs c).final = some (pipeFlow w.fs s pre).vals := by
+    rw [runOp_final]
+    show ((runPipe mode w.fs s (pre ++ .cache c rc :: post) k).fs c).final = _
+    rw [(first_run_stores mode w.fs s pre post c rc k hwf.2 hwf.1 hx hpost hend').1]
+  have hfile : (w'.fs c).final = some (pipeFlow w.fs s pre).vals :=
+    stored_cache_persists ops _ wf c _ hno h0
+  obtain ⟨h1, h2, _⟩ := replay_exact_no_pull mode' w'.fs s' pre' post' c k' _ hm' hd' hfile
+  exact ⟨h1, h2⟩
+
+/-- non-vacuity: fill, then a replay, an interrupted run of another pipeline kept alive, a late finalisation, a
+run that does not contain the cache - and the replay after all that -/
+example :
+    let p := [ElSpec.map 1 none, .cache 0 false]
+    let w1 := (runOp World.init ⟨.source, ⟨[1, 2], none⟩, p, 9, false⟩).1
+    let ops := [Op.run ⟨.hoist, ⟨[7], none⟩, p, 9, false⟩, .run ⟨.source, ⟨[4, 5, 6], none⟩, [.cache 1 false, .cache 0 false], 1, true⟩,
+                .finalize, .run ⟨.sequence, ⟨[8], some 0⟩, [.cache 1 true], 3, false⟩, .drop 1 false]
+    (∀ op, op ∈ ops → ¬ op.mayReplace 0) ∧
+    (runPipe .sequence (exec w1 ops).fs ⟨[9, 9, 9], none⟩ p 9).outs.map (·.1) = [11, 21] := by
+  refine ⟨?_, by decide⟩
+  intro op hop
+  simp only [List.mem_cons, List.mem_nil_iff, or_false] at hop
+  rcases hop with rfl | rfl | rfl | rfl | rfl <;> simp [Op.mayReplace]
 
 end Lena.C18
